@@ -21,4 +21,5 @@ def obligations(tier):
     obls.append(e2e_obl(Cfg(1, 64, LQ | MINIMUM, DP, e2e=1, i0=300), ('gain',), tier, kf='KF_C14_POW2_NONLINEAR'))
     obls += [e2e_obl(Cfg(1, 4, LQ | MINIMUM, DP, e2e=1), ('gain',), tier), e2e_obl(Cfg(1, 8, LQ | MINIMUM, DP, e2e=1, i0=600), ('gain',), tier),
              e2e_obl(Cfg(1, 64, LQ, DP, e2e=1, i0=300), ('gain', 'sym'), tier)]
+    obls += [plan_obl(1)]      # planner pieces of cr.c (set_dft_length / dft_stage_init / validation prefix)
     return obls
